@@ -127,3 +127,20 @@ func (t TM) MarshalText() ([]byte, error) { return []byte("tm-" + strconv.Itoa(t
 
 // MyInt is a named integer type.
 type MyInt int
+
+// E3 is embedded by value: several numeric / bool members of different kinds and values at non-zero offsets.
+type E3 struct {
+	Ga int
+	Gb int
+	Gc bool
+	Gd float64
+	Ge uint8
+}
+
+// M1 has pointer, slice and map members: elements of map[string]M1, map[string]*M1, []M1, []*M1 populate them differently.
+type M1 struct {
+	Mp *int
+	Ms []int
+	Mm map[string]int
+	Mn int
+}
